@@ -160,6 +160,27 @@ def one_input(ctx, inp, cid, tmp, heavy=True):
         edge_list=edges, n_nodes=n, directed=d, node_weights=w,
         silence_level=3)))
 
+    # the caller reuses its buffers afterwards (one weight vector / matrix
+    # refilled for the next network): the network built earlier is unchanged
+    def reused():
+        Ab = A.astype(np.int16)
+        wb = None if w is None else np.array(w, dtype=np.float64)
+        Wb = None if W is None else np.array(W, dtype=np.float64)
+        o = Network(adjacency=Ab, directed=d, node_weights=wb,
+                    silence_level=3)
+        if Wb is not None:
+            o.set_link_attribute("w", Wb)
+        o.degree()
+        Ab[...] = 1 - Ab
+        np.fill_diagonal(Ab, 0)
+        if wb is not None:
+            wb *= 3.0
+            wb += 1.0
+        if Wb is not None:
+            Wb *= -2.0
+        return o
+    build("buffers-reused-by-caller", reused)
+
     def via_set():
         o = Network(adjacency=np.zeros((n, n), dtype=int) if A.any() else
                     (np.ones((n, n), dtype=int) - np.eye(n, dtype=int)),
